@@ -129,7 +129,7 @@ func runC12(c *ctx) {
 			q := pick(r, []string{"", "?x=1", "?a=b&c=d%20e", "?redirect=/evil"})
 			method := pick(r, []string{"GET", "GET", "GET", "POST", "HEAD", "PUT", "DELETE"})
 			hdr := http.Header{}
-			switch r.intn(5) {
+			switch r.intn(8) {
 			case 0:
 				hdr.Set("Sec-Fetch-Mode", "navigate")
 				hdr.Set("Sec-Fetch-Dest", "document")
@@ -140,6 +140,15 @@ func runC12(c *ctx) {
 				hdr.Set("Accept", "text/html,application/xhtml+xml;q=0.9")
 			case 3:
 				hdr.Set("Accept", "application/json")
+			case 4: // Fetch metadata present but not a top-level navigation / only half of it
+				hdr.Set("Sec-Fetch-Mode", pick(r, []string{"navigate", "no-cors", "same-origin", "websocket", ""}))
+				hdr.Set("Sec-Fetch-Dest", pick(r, []string{"iframe", "image", "empty", "document", ""}))
+				if r.chance(1, 2) {
+					hdr.Set("Accept", "text/html")
+				}
+			case 5, 6: // no Fetch metadata (older browsers, API clients, curl): the Accept header decides
+				hdr.Set("Accept", pick(r, []string{"*/*", "application/json, text/plain, */*", "text/plain, */*;q=0.8", "TEXT/HTML", " text/html ;q=0.9", "application/xhtml+xml,text/html;q=0.9,*/*;q=0.8",
+					"text/htmlx", "text/*", "image/avif,image/webp,*/*", "application/json;q=0.9,text/html;q=0.1", ""}))
 			}
 			referer := ""
 			if r.chance(1, 2) {
@@ -179,7 +188,7 @@ func runC12(c *ctx) {
 			}
 			c.count("req:" + method)
 			c.emit("alog", "prefix", hx(prefix), "pats", prefixed, "method", method, "urlpath", hx(req.URL.Path), "reqstr", hx(req.URL.String()), "rawquery", hx(req.URL.RawQuery),
-				"nav", nav, "referer", hx(referer), "authed", authed, "status", resp.Status, "fwd", len(ups) > 0, "uppath", hx(upPath), "upquery", hx(upQ),
+				"nav", nav, "sfmode", hx(hdr.Get("Sec-Fetch-Mode")), "sfdest", hx(hdr.Get("Sec-Fetch-Dest")), "accept", hx(hdr.Get("Accept")), "referer", hx(referer), "authed", authed, "status", resp.Status, "fwd", len(ups) > 0, "uppath", hx(upPath), "upquery", hx(upQ),
 				"locpath", hx(locPath), "locredirect", hx(locRedirect), "hasloc", resp.Location != "")
 		}
 		s.close()
